@@ -31,7 +31,7 @@ pub fn run(ctx: &Ctx) -> Report {
          every transition replayed from scratch on the real appender with the real OnStartUpTrigger; per lifetime at most one rotation, only at the first record, iff size >= min_size; \
          archive 0 == the pre-existing bytes and the active file starts with the first new record (directory == model after every step). E-SCHED part: see schedules_* keys",
     );
-    let depth = ctx.tier.pick(5, 7);
+    let depth = ctx.tier.pick(6, 8);
     run_worlds(ctx, &mut rep, &worlds(ctx.tier), depth);
     // the first records arrive simultaneously from several threads
     let mk = |min: u64, pre: Option<u32>, append: bool| World { append, trig: Trig::OnStartup(min), roller: RollerK::Fixed { base: 0, count: 2, ext: "" }, pre, sizes: vec![], multibyte: false, restart: false };
